@@ -80,6 +80,13 @@ func (s *Sim) DeliverHeader(b *MBlock) {
 		}
 		r.Probe("invalid-header-judged")
 		s.judgedInv++
+	case s.excluded(b.Parent) && s.markedInvalid[b.Parent] && s.nodeKnown(b.Parent):
+		// the parent was invalidated by the operator (directly or through an
+		// ancestor): the node knows it is invalid
+		if err == nil {
+			r.Violate("C17", "header-on-known-invalid-refused", "", "header %v extends %v, which the node knows to be invalid (invalidated), but was accepted", b, b.Parent)
+		}
+		r.Probe("header-on-invalidated-branch-refused")
 	case b.Parent.ChainValid() && !s.excluded(b) && (b.Class == ClsValid || !s.delivered[b]):
 		// nothing on the path can be known invalid
 		if err != nil {
